@@ -293,6 +293,9 @@ class EncDomain(Domain):
             return frozenset({"QUOTED": "DECODED", "DECODED": "OVERDECODED", "LATIN1": "OVERDECODED", "BYTES_L1": "OVERDECODED"}.get(x, x) for x in a) or A("DECODED")
         if d == "wsgiref.util.request_uri":
             return A("URL")
+        if d == "unicodedata.normalize" and len(args) >= 2:
+            # the same text only for strings that are already in that form: a name is no longer the name that was sent / stored
+            return frozenset(flat(args[1]) | {"REWRITTEN"})
         if d in ("urllib.parse.urljoin", "posixpath.join", "posixpath.normpath", "os.path.join"):
             return self.unknown(args)
         if d in ("urllib.parse.urlsplit", "urllib.parse.urlparse"):
@@ -315,7 +318,9 @@ class EncDomain(Domain):
             if "BYTES_L1" in r:
                 return frozenset({"BYTES_L1": "DECODED"}.get(x, x) for x in r)
             return r
-        if attr in ("rstrip", "lstrip", "strip", "lower", "upper", "format", "split", "rsplit", "get"):
+        if attr in ("casefold", "lower", "upper", "title", "capitalize", "swapcase", "translate", "expandtabs"):
+            return frozenset(r | {"REWRITTEN"}) if r else r
+        if attr in ("rstrip", "lstrip", "strip", "format", "split", "rsplit", "get"):
             return r
         if attr in ("startswith", "endswith"):
             return self.OTHER
@@ -611,3 +616,47 @@ def j1(ctx):
                           "urljoin treats it as absolute and drops the route prefix, so under a prefix the advertised principal href is not served"
                           % (sorted(seen_ops) or "none")))
     return obs
+
+
+NAME_SINKS = {"get_resource": 0, "create_collection": 0, "get_member": 0, "create_member": 0, "delete_member": 0,
+              "import_one": 0, "delete_one": 0, "get_file": 0, "_get_resource": 0}
+
+
+def opaque_name_obligations(ctx):
+    """Names and paths travel unchanged between the request, the store and the emitted hrefs: no value that reaches a
+    lookup / create / delete by name, or an emitted href, has been through Unicode normalisation or case mapping."""
+    an = enc_analysis(ctx)
+    obs = []
+    n_sites = 0
+    for fi in an.funcs:
+        cfg = ctx.cfg(fi)
+        for n in cfg.stmt_nodes():
+            for c in n.calls():
+                last = (dotted(c.func) or "").split(".")[-1]
+                args = []
+                if last in NAME_SINKS and isinstance(c.func, ast.Attribute) and len(c.args) > NAME_SINKS[last]:
+                    args = [("%s() name" % last, c.args[NAME_SINKS[last]])]
+                elif last == "create_href":
+                    args = [("emitted href", a) for a in c.args[:2]]
+                elif last == "Status" and c.args:
+                    args = [("emitted href", c.args[0])]
+                for what, a in args:
+                    n_sites += 1
+                    v = flat(an.ev(fi, n, a))
+                    bad = "REWRITTEN" in v
+                    path = an.explain(fi, n, a, {"REWRITTEN"}) if bad else []
+                    obs.append(ctx.ob(not bad, fi.qualname, where(fi, n), "%s `%s` is the name as sent / stored" % (what, src(a)[:40]),
+                                      "no normalisation or case mapping on the way",
+                                      "`%s` reaches %s after Unicode normalisation / case mapping: the name that is looked up, created or "
+                                      "emitted is not the name the other side uses (listing vs. lookup, request path vs. multiget href), so a "
+                                      "listed member answers 404 or two spellings address different resources" % (src(a), what), path=path))
+    if n_sites < 40:
+        raise AnalysisError("only %d name / href sites found (confirmed: 60+)" % n_sites)
+    return obs
+
+
+@rule("C16", "N1", floor=40, kind="S",
+      desc="names are opaque: no value that reaches a lookup / create / delete by name or an emitted href has been "
+           "through Unicode normalisation or case mapping (listing and lookup use the same spelling)")
+def n1(ctx):
+    return opaque_name_obligations(ctx)
